@@ -265,6 +265,18 @@ func FloatString(name string) string {
 	return strconv.FormatFloat(f, 'g', -1, 64)
 }
 
+// TypeName is the unqualified name of x's dynamic type ("mergeFromPatch", "Pod", ...).
+func TypeName(x any) string {
+	if x == nil {
+		return "<nil>"
+	}
+	n := fmt.Sprintf("%T", x)
+	if i := strings.LastIndex(n, "."); i >= 0 {
+		n = n[i+1:]
+	}
+	return n
+}
+
 // Cover is a reachability witness: under the engine the run must contain a feasible path on which
 // cond can hold (otherwise the check is reported as vacuous); natively a no-op.
 func Cover(cond bool, id string) {}
